@@ -25,7 +25,7 @@ sys.path.insert(0, os.path.join(K.REPO, "src"))
 PROP = "C09"
 EXTRA_TARGETS = ["theories/Secondary/Check.vo"]
 HEADER = """From Coq Require Import QArith List Bool ZArith.
-From Cobra.LP Require Import Defs Fba.
+From Cobra.LP Require Import Defs Fba Milp.
 From Cobra.Optimize Require Import Model.
 From Cobra.Secondary Require Import Check.
 Import ListNotations.
@@ -194,8 +194,13 @@ def read_lp(model, net, extra_cols=(), extra_rows=()):
 class Recorder:
     """records the solver state after every Model.slim_optimize / Model.optimize while installed"""
 
-    def __init__(self, net):
-        self.net, self.log = net, []
+    def __init__(self, net, on_solve=None):
+        self.net, self.log, self.on_solve, self.depth = net, [], on_solve, 0
+
+    def before(self, model, kind):
+        # the LP is read back at the moment the analysis hands it to the solver
+        if self.on_solve is not None and self.depth == 0:
+            self.on_solve(model, kind, len(self.log))
 
     def __enter__(self):
         import cobra
@@ -204,6 +209,7 @@ class Recorder:
         rec = self
 
         def slim(model, *a, **kw):
+            rec.before(model, "slim")
             try:
                 return rec.orig_slim(model, *a, **kw)
             finally:
@@ -211,10 +217,13 @@ class Recorder:
 
         def optimize(model, *a, **kw):
             # Model.optimize calls slim_optimize itself; record once, after the outer call
+            rec.before(model, "optimize")
             n = len(rec.log)
+            rec.depth += 1
             try:
                 return rec.orig_opt(model, *a, **kw)
             finally:
+                rec.depth -= 1
                 del rec.log[n:]
                 rec.snap(model)
         self.cls.slim_optimize, self.cls.optimize = slim, optimize
@@ -290,23 +299,22 @@ def pfba_case(case):
             return None
         return list(rs) if case.get("reactions_style") == "id" else [model.reactions.get_by_id(r) for r in rs]
     obs = {}
-    lp_obs = "None"
+    seen = {"lp": "None"}
+
+    def on_solve(model, kind, index):
+        if kind != "slim" or index != 1:
+            return
+        fixed = [c.name for c in model.constraints if c.name.startswith("fixed_objective_")]
+        got = read_lp(model, net, extra_rows=fixed) if len(fixed) == 1 else None
+        if got is None:
+            seen["lp"] = "(Some (0, %s))" % BAD_LP
+        else:
+            lo, hi = got[2][fixed[0]]
+            bobs = lo if net["dir"] == "max" else hi
+            seen["lp"] = "(Some (%s, %s))" % (gennet.q(F(bobs)) if bobs is not None else "0", gennet.coq_lp(got[0]))
+            obs["bound_in_solver"] = float(F(bobs)) if bobs is not None else None
     with warnings.catch_warnings():
         warnings.simplefilter("ignore")
-        try:
-            with m:
-                parsimonious.add_pfba(m, objective=objective_arg(m), fraction_of_optimum=float(frac))
-                fixed = [c.name for c in m.constraints if c.name.startswith("fixed_objective_")]
-                got = read_lp(m, net, extra_rows=fixed) if len(fixed) == 1 else None
-                if got is None:
-                    lp_obs = "(Some (0, %s))" % BAD_LP
-                else:
-                    lo, hi = got[2][fixed[0]]
-                    bobs = lo if net["dir"] == "max" else hi
-                    lp_obs = "(Some (%s, %s))" % (gennet.q(F(bobs)) if bobs is not None else "0", gennet.coq_lp(got[0]))
-                    obs["bound_in_solver"] = float(F(bobs)) if bobs is not None else None
-        except Exception as e:  # noqa
-            obs["add_pfba_exception"] = type(e).__name__
         full = {}
         orig_gs = parsimonious.get_solution
 
@@ -315,7 +323,7 @@ def pfba_case(case):
             return orig_gs(model, reactions=reactions, metabolites=metabolites, raise_error=raise_error)
         parsimonious.get_solution = gs
         try:
-            with Recorder(net) as rec:
+            with Recorder(net, on_solve) as rec:
                 try:
                     sol = parsimonious.pfba(m, fraction_of_optimum=float(frac), objective=objective_arg(m),
                                             reactions=reactions_arg(m))
@@ -344,7 +352,7 @@ def pfba_case(case):
     cvec = None if case.get("objective") is None else vec(raw_obj(net2))
     term = "(CPfba (mkPfba %s %s %s %s %s %s %s %s %s %s))" % (
         gennet.coq_net(net), opt(cvec), gennet.q(frac), opt(sel), oracle_term(fba), oracle_term(spec),
-        lp_obs, rec.sr(0), rec.sr(1), out)
+        seen["lp"], rec.sr(0), rec.sr(1), out)
     obs["exact"] = {"fba": fba[0], "optimum": str(exact_opt), "spec": None if spec is None else spec[0],
                     "min_total_flux": None if spec is None or spec[0] != "optimal" else
                     str(-sum((c * x for c, x in zip(pfba_lp_py(net2, exact_opt * frac)["obj"], spec[1])), F(0)))}
@@ -445,23 +453,18 @@ def moma_case(case):
             return used["sol"]
         moma_mod.pfba = spy_pfba
         try:
-            # (a) the LP that add_moma builds
-            lp_obs, exc_add = "None", None
-            try:
-                with m:
-                    moma_mod.add_moma(m, solution=ref_sol, linear=True)
-                    got = read_lp(m, net,
-                                  extra_cols=["moma_old_objective"] + ["moma_dist_" + i for i in ids],
-                                  extra_rows=["moma_old_objective_constraint"] + ["abs_pos_moma_dist_" + i for i in ids]
-                                  + ["abs_neg_moma_dist_" + i for i in ids])
-                    lp_obs = "(Some %s)" % (BAD_LP if got is None or any(k != "continuous" for k in got[1])
+            seen = {"lp": "None"}
+
+            def on_solve(model, kind, index):
+                if kind != "optimize":
+                    return
+                got = read_lp(model, net,
+                              extra_cols=["moma_old_objective"] + ["moma_dist_" + i for i in ids],
+                              extra_rows=["moma_old_objective_constraint"] + ["abs_pos_moma_dist_" + i for i in ids]
+                              + ["abs_neg_moma_dist_" + i for i in ids])
+                seen["lp"] = "(Some %s)" % (BAD_LP if got is None or any(k != "continuous" for k in got[1])
                                             else gennet.coq_lp(got[0]))
-            except Exception as e:  # noqa
-                exc_add = e
-                obs["add_moma_exception"] = type(e).__name__
-            # (b) the analysis itself
-            used.clear()
-            with Recorder(net) as rec:
+            with Recorder(net, on_solve) as rec:
                 try:
                     sol = moma_mod.moma(m, solution=ref_sol, linear=True)
                     exc = None
@@ -499,7 +502,7 @@ def moma_case(case):
                     str(sum(spec[1][2 * len(ids) + 1:], F(0)))}
     term = "(CMoma (mkMoma %s %s %s %s %s %s %s %s))" % (
         gennet.coq_net(net), vec(ref), opt(None if default is None else oracle_term(default)), oracle_term(spec),
-        lp_obs, sr, w, out)
+        seen["lp"], sr, w, out)
     return term, {"obs": obs, "nontrivial": spec[0] == "optimal",
                   "stats": {"kind": "moma", "spec": spec[0], "ref": case.get("ref", "fba"), "dir": net["dir"],
                             "solver": case["solver"], "n_ko": len(case.get("ko") or []), "n_rxns": len(ids)}}
@@ -518,10 +521,209 @@ def gen_moma(rng, n):
     return cases
 
 
+# ------------------------------------------------------------------ ROOM
+def band(f, delta, eps):
+    return f - delta * abs(f) - eps, f + delta * abs(f) + eps
+
+
+def room_lp_py(net, ref, delta, eps, linear):
+    if linear:
+        delta = eps = F(0)
+    n = len(net["rxns"])
+    ups, los = [], []
+    for r, f in zip(net["rxns"], ref):
+        wl, wu = band(f, delta, eps)
+        ups.append((-(F(r["ub"]) - wu), None, wu))
+        los.append((-(F(r["lb"]) - wl), wl, None))
+    return aux_lp_py(net, (None, None), [(F(0), F(1))] * n, ups, los)
+
+
+def room_env(net, ref, delta, eps):
+    big = F(1)
+    for r, f in zip(net["rxns"], ref):
+        wl, wu = band(f, delta, eps)
+        big = max(big, abs(F(r["ub"]) - wu), abs(F(r["lb"]) - wl))
+    return F(1, 100000) * big
+
+
+def room_milp_cert(net, ref, delta, eps):
+    """exact optimum of the mixed problem by enumeration: (k, x, [bcert terms]) or None.
+    Search on the small net-flux problem first, certificates on the Gallina-shaped problem."""
+    import itertools
+    n = len(net["rxns"])
+    base = gennet.net_lp(net)
+    bands = [band(f, delta, eps) for f in ref]
+
+    def feasible_with(out):
+        vb = []
+        for i, (lo, hi) in enumerate(base["vb"]):
+            if i not in out:
+                lo, hi = max(lo, bands[i][0]), min(hi, bands[i][1])
+                if lo > hi:
+                    return False
+            vb.append((lo, hi))
+        return lpexact.certified({"vb": vb, "rows": base["rows"], "obj": [F(0)] * n})[0] == "optimal"
+    best = None
+    for k in range(n + 1):
+        for out in itertools.combinations(range(n), k):
+            if feasible_with(set(out)):
+                best = (k, set(out))
+                break
+        if best:
+            break
+    if best is None:
+        return None
+    k, out = best
+    lp = room_lp_py(net, ref, delta, eps, False)
+
+    def fixed(bs):
+        vb = list(lp["vb"])
+        for i, b in enumerate(bs):
+            vb[2 * n + 1 + i] = (F(b), F(b))
+        return {"vb": vb, "rows": lp["rows"], "obj": lp["obj"]}
+    certs = []
+    for bs in itertools.product([0, 1], repeat=n):
+        if sum(bs) >= k:
+            certs.append("BUp []")
+        else:
+            r = lpexact.certified(fixed(bs))
+            if r[0] != "infeasible":
+                return None
+            certs.append("BInf %s" % vec(r[1]))
+    r = lpexact.certified(fixed([1 if i in out else 0 for i in range(n)]))
+    if r[0] != "optimal":
+        return None
+    return k, r[1], "[" + "; ".join(certs) + "]"
+
+
+def room_case(case):
+    import importlib
+    room_mod = importlib.import_module("cobra.flux_analysis.room")
+    case = normalise(case)
+    wt = case["net"]
+    net = knocked(wt, case.get("ko") or [])
+    ids = [r["id"] for r in net["rxns"]]
+    n = len(ids)
+    linear = bool(case.get("linear"))
+    delta, eps = float(F(case["delta"])), float(F(case["epsilon"]))
+    obs = {}
+    with warnings.catch_warnings():
+        warnings.simplefilter("ignore")
+        wt_model = gennet.to_cobra(wt, case["solver"])
+        try:
+            ref_sol = reference(case, wt_model)
+        except Exception as e:  # noqa
+            return None, {"skipped": True, "stats": {"kind": "room", "skipped": "no reference: " + type(e).__name__}}
+        if ref_sol is not None and ref_sol.status != "optimal":
+            return None, {"skipped": True, "stats": {"kind": "room", "skipped": "no reference: " + ref_sol.status}}
+        m = gennet.to_cobra(net, case["solver"])
+        used = {}
+        orig_pfba = room_mod.pfba
+
+        def spy_pfba(model, *a, **kw):
+            used["sol"] = orig_pfba(model, *a, **kw)
+            return used["sol"]
+        room_mod.pfba = spy_pfba
+        try:
+            seen = {"lp": "None"}
+
+            def on_solve(model, kind, index):
+                if kind != "optimize":
+                    return
+                got = read_lp(model, net, extra_cols=["room_old_objective"] + ["y_" + i for i in ids],
+                              extra_rows=["room_old_objective_constraint"]
+                              + ["room_constraint_upper_" + i for i in ids]
+                              + ["room_constraint_lower_" + i for i in ids])
+                if got is None:
+                    seen["lp"] = "(Some (%s, []))" % BAD_LP
+                else:
+                    bins = [i for i, k in enumerate(got[1]) if k != "continuous"]
+                    seen["lp"] = "(Some (%s, [%s]))" % (gennet.coq_lp(got[0]), "; ".join("%d%%nat" % i for i in bins))
+                    obs["room_old_objective_bounds_in_solver"] = [None if b is None else float(b)
+                                                                  for b in got[0]["vb"][2 * n]]
+            with Recorder(net, on_solve) as rec:
+                try:
+                    sol = room_mod.room(m, solution=ref_sol, linear=linear, delta=delta, epsilon=eps)
+                    exc = None
+                except Exception as e:  # noqa
+                    sol, exc = None, e
+        finally:
+            room_mod.pfba = orig_pfba
+    fba = lpexact.certified(gennet.net_lp(net))
+    if ref_sol is None:
+        if "sol" not in used:
+            if exc is not None and fba[0] == "infeasible" and type(exc).__name__ == "Infeasible":
+                return None, {"skipped": True, "stats": {"kind": "room", "skipped": "default reference: model infeasible"}}
+            ref = [F(0)] * n
+        else:
+            ref = [qf(used["sol"].fluxes[i]) for i in ids]
+    else:
+        ref = [qf(ref_sol.fluxes[i]) for i in ids]
+    dq, eq = F(delta), F(eps)
+    wide = narrow = None
+    lin = None
+    skipped = False
+    exact = {"model": fba[0]}
+    if fba[0] != "infeasible":
+        if linear:
+            lin = lpexact.certified(room_lp_py(net, ref, dq, eq, True))
+            if lin[0] == "optimal":
+                exact["min_relaxed_sum"] = str(sum(lin[1][2 * n + 1:], F(0)))
+        else:
+            e = room_env(net, ref, dq, eq)
+            wide = room_milp_cert(net, ref, dq, eq + e)
+            narrow = room_milp_cert(net, ref, dq, eq - F(1, 10 ** 9))
+            exact["min_outside_band"] = [None if wide is None else wide[0], None if narrow is None else narrow[0]]
+            skipped = False
+            exact["well_conditioned"] = wide is not None and narrow is not None and wide[0] == narrow[0]
+
+    def milp_term(c):
+        return "None" if c is None else "(Some (%s, %s))" % (vec(c[1]), c[2])
+    sr = rec.sr(len(rec.log) - 1) if rec.log else DUMMY_SR
+    out = exn_term(exc).replace("PRaise", "SRaise").replace("POther", "SOther") if exc is not None else sobs_term(sol, ids)
+    if sol is not None:
+        obs.update(status=sol.status, objective_value=sol.objective_value,
+                   fluxes={k: float(v) for k, v in sol.fluxes.items()})
+    if exc is not None:
+        obs["exception"] = type(exc).__name__
+    obs["reference"] = [float(x) for x in ref]
+    obs["exact"] = exact
+    term = "(CRoom (mkRoom %s %s %s %s %s %s %s %s %s %s %s %s))" % (
+        gennet.coq_net(net), vec(ref), gennet.q(dq), gennet.q(eq), "true" if linear else "false",
+        oracle_term(fba if fba[0] == "infeasible" else None), milp_term(wide), milp_term(narrow),
+        oracle_term(lin), seen["lp"], sr, out)
+    info = {"obs": obs, "nontrivial": fba[0] == "optimal",
+            "stats": {"kind": "room-linear" if linear else "room", "model": fba[0], "ref": case.get("ref", "fba"),
+                      "dir": net["dir"], "solver": case["solver"], "n_ko": len(case.get("ko") or []), "n_rxns": n,
+                      "room_count": None if wide is None else wide[0], "delta": case["delta"]}}
+    if not linear:
+        info["stats"]["count_pinned_exactly"] = exact.get("well_conditioned")
+    return term, info
+
+
+def gen_room(rng, n):
+    cases = []
+    for k in range(n):
+        linear = k % 3 == 2
+        net = gennet.gen_network(rng, finite_only=True, genes=False, max_mets=5, max_rxns=9 if linear else 6,
+                                 forced_p=0.15 if k % 6 == 0 else 0.04)
+        ids = [r["id"] for r in net["rxns"]]
+        delta, eps = [("0.03", "0.001"), ("1/32", "1/1024"), ("0", "1/2"), ("1/8", "0")][k % 4]
+        c = {"kind": "room", "net": net, "solver": "glpk", "linear": linear,
+             "delta": str(F(float(delta))) if "." in delta else delta,
+             "epsilon": str(F(float(eps))) if "." in eps else eps,
+             "ref": ["fba", "pfba", "fba", "default"][(k // 3) % 4], "ko": []}
+        if rng.random() < 0.8:
+            c["ko"] = rng.sample(ids, 1 if rng.random() < 0.7 else min(2, len(ids)))
+        cases.append(c)
+    return cases
+
+
 # ------------------------------------------------------------------ driver interface
 def gen_cases(rng, tier):
     quick = tier == "quick"
-    return gen_pfba(rng, 260 if quick else 3000) + gen_moma(rng, 200 if quick else 2500)
+    return gen_pfba(rng, 260 if quick else 3000) + gen_moma(rng, 200 if quick else 2500) + \
+        gen_room(rng, 66 if quick else 600)
 
 
 def case_term(case):
@@ -530,6 +732,8 @@ def case_term(case):
         return pfba_case(case)
     if kind == "moma":
         return moma_case(case)
+    if kind == "room":
+        return room_case(case)
     raise ValueError("unknown case kind %r" % kind)
 
 
